@@ -59,11 +59,43 @@ func init() {
 			return nil
 		}
 	}
-	term.AppHook["band"] = fold(func(a, b *big.Int) *big.Int { return new(big.Int).And(a, b) })
-	term.AppHook["bor"] = fold(func(a, b *big.Int) *big.Int { return new(big.Int).Or(a, b) })
-	term.AppHook["bxor"] = fold(func(a, b *big.Int) *big.Int { return new(big.Int).Xor(a, b) })
-	term.AppHook["shl"] = fold(func(a, b *big.Int) *big.Int { return new(big.Int).Lsh(a, uint(b.Int64())) })
-	term.AppHook["shr"] = fold(func(a, b *big.Int) *big.Int { return new(big.Int).Rsh(a, uint(b.Int64())) })
+	isZero := func(t *T) bool { return t.IsConst() && t.Val.Sign() == 0 }
+	wrap := func(f func(args []*T) *T, pre func(args []*T) *T) func(args []*T) *T {
+		return func(args []*T) *T {
+			if r := pre(args); r != nil {
+				return r
+			}
+			return f(args)
+		}
+	}
+	term.AppHook["band"] = wrap(fold(func(a, b *big.Int) *big.Int { return new(big.Int).And(a, b) }), func(a []*T) *T {
+		if isZero(a[0]) || isZero(a[1]) {
+			return term.I(0)
+		}
+		return nil
+	})
+	orLike := func(a []*T) *T {
+		if isZero(a[0]) {
+			return a[1]
+		}
+		if isZero(a[1]) {
+			return a[0]
+		}
+		return nil
+	}
+	term.AppHook["bor"] = wrap(fold(func(a, b *big.Int) *big.Int { return new(big.Int).Or(a, b) }), orLike)
+	term.AppHook["bxor"] = wrap(fold(func(a, b *big.Int) *big.Int { return new(big.Int).Xor(a, b) }), orLike)
+	shiftLike := func(a []*T) *T {
+		if isZero(a[0]) {
+			return term.I(0)
+		}
+		if isZero(a[1]) {
+			return a[0]
+		}
+		return nil
+	}
+	term.AppHook["shl"] = wrap(fold(func(a, b *big.Int) *big.Int { return new(big.Int).Lsh(a, uint(b.Int64())) }), shiftLike)
+	term.AppHook["shr"] = wrap(fold(func(a, b *big.Int) *big.Int { return new(big.Int).Rsh(a, uint(b.Int64())) }), shiftLike)
 }
 
 func pow2(k int64) *T { return term.Big(new(big.Int).Lsh(big.NewInt(1), uint(k))) }
